@@ -21,6 +21,13 @@
 (*           the packet it was copied from.  release() never touches it.    *)
 (*   txck    the packet whose client cookie the COOKIE option of the bytes  *)
 (*           in the TX buffer was built from (None = no COOKIE option)      *)
+(*   txhd    the packet whose reply last WROTE the flags word (bytes 2..3)  *)
+(*           of the TX buffer (None = never written: the zero bytes of a    *)
+(*           fresh slab).  A reply copied / packed into TX overwrites it; a *)
+(*           reply COMPOSED IN PLACE in the leased TX buffer (the failure   *)
+(*           cache's byte rung, middleware/cache serveFailureFromWire) only *)
+(*           ORs its own bits in (wire.ApplyReply keeps TC/AD/Z as found),  *)
+(*           so the word is its own only if the composer cleared it first.  *)
 (* and two per-lease ghosts: wrote (the serve of this lease wrote a reply) *)
 (* and sends (datagrams transmitted from this slab during this lease).     *)
 (***************************************************************************)
@@ -29,13 +36,16 @@ CONSTANTS
   None,          \* "no packet / no address / no burst"
   ScrubTxLen,    \* release() does `j.txLen = 0`          (FALSE = mutant)
   ResetRawSA,    \* portable read does `j.rawSALen = 0`   (FALSE = mutant)
-  ResetSlot      \* edns serveWire's deferred `*rw = ResponseWriter{}` zeroes the whole job-owned
+  ResetSlot,     \* edns serveWire's deferred `*rw = ResponseWriter{}` zeroes the whole job-owned
                  \* writer slot (FALSE = mutant: cookieRaw / hasCookieRaw survive the request)
+  ClearHdr       \* serveFailureFromWire zeroes the 12 header bytes of its lease before it stamps
+                 \* counts / id / flags (FALSE = mutant: the flags word is left as the slab's
+                 \* previous reply wrote it)
 
 FreshSlab ==
   [state |-> "free", rx |-> None, raddr |-> None, rawSA |-> None,
    tx |-> None, txLen |-> 0, replay |-> FALSE, jb |-> None,
-   ew |-> None, txck |-> None,
+   ew |-> None, txck |-> None, txhd |-> None,
    wrote |-> FALSE, sends |-> 0]
 
 States == {"free", "reading", "queued", "serving"}
@@ -62,7 +72,7 @@ OpInlineBegin(s, b) == [s EXCEPT !.state = "serving", !.jb = b]
 
 (* udpJob.Write with a burst: the reply for the packet in RX is staged     *)
 (* (an in-place rejection, or any reply without a COOKIE option)           *)
-OpStage(s) == [s EXCEPT !.tx = s.rx, !.txLen = 1, !.wrote = TRUE, !.txck = None]
+OpStage(s) == [s EXCEPT !.tx = s.rx, !.txLen = 1, !.wrote = TRUE, !.txck = None, !.txhd = s.rx]
 
 (* What EDNS the packet carried: "none" | "plain" (an OPT, no cookie) |     *)
 (* "cookie".  middleware/edns serveWire on the job-owned slot: every field  *)
@@ -76,6 +86,15 @@ OpEdnsEnter(s, opt) == [s EXCEPT !.ew = IF opt = "cookie" THEN s.rx ELSE @]
 OpEdnsLeave(s)      == [s EXCEPT !.ew = IF ResetSlot THEN None ELSE @]
 ReplyCookie(s, opt) == IF opt = "none" THEN None ELSE s.ew
 OpStageOpt(s, opt)  == [OpStage(s) EXCEPT !.txck = ReplyCookie(s, opt)]
+
+(* a reply composed in place in the leased TX buffer (BeginWire / CommitWire): *)
+(* question and counts are written, the flags word is only stamped over      *)
+HdInPlace(s) == IF ClearHdr \/ s.txhd = None THEN s.rx ELSE s.txhd
+OpStageInPlace(s, opt) == [OpStageOpt(s, opt) EXCEPT !.txhd = HdInPlace(s)]
+
+(* the kernel filled RX with a datagram larger than the buffer (MSG_TRUNC):  *)
+(* nothing else of it is copied into the job                                 *)
+OpReadTrunc(s, p) == [s EXCEPT !.rx = p]
 
 (* udpJob.Write without a burst (overflow goroutine): bytes leave at once *)
 OpWriteNow(s) == [s EXCEPT !.wrote = TRUE, !.sends = @ + 1]
